@@ -75,6 +75,20 @@ func c18Scenarios() []c18Scenario {
 			cm := commit.Commit{ID: commit.Next(), Chunk: 2, Updates: []*commit.Buffer{rows, nb}}
 			return []func(){func() { w.C.Replay(cm) }, readN(w.C, R0), rangeN(w.C)}, w.Close
 		}},
+		{"grow-into-new-block||writer-block0", func() ([]func(), func()) {
+			w := model.NewWorld(model.Config{Cols: []model.ColDef{{Name: "n", Kind: "int"}, {Name: "s", Kind: "string"}}})
+			w.SeedReplay(map[uint32][]model.Write{R0: {{Col: "n", V: model.Val{N: 2}}, {Col: "s", V: model.Val{S: "m"}}}})
+			rows, nb := commit.NewBuffer(8), commit.NewBuffer(8)
+			rows.Reset("row")
+			rows.PutOperation(commit.Insert, 16384+5)
+			nb.Reset("n")
+			nb.PutInt(commit.Put, 16384+5, 9)
+			cm := commit.Commit{ID: commit.Next(), Chunk: 1, Updates: []*commit.Buffer{rows, nb}}
+			wr := func() {
+				w.C.QueryAt(R0, func(r column.Row) error { r.MergeInt("n", 1); r.SetString("s", "w"); return nil })
+			}
+			return []func(){func() { w.C.Replay(cm) }, wr}, w.Close
+		}},
 		{"insert-into-new-block||point-read", func() ([]func(), func()) {
 			// block 0 is full: the insert lands in block 1 and grows every column
 			w := model.NewWorld(model.Config{Cols: []model.ColDef{{Name: "n", Kind: "int"}, {Name: "s", Kind: "string"}}})
@@ -221,7 +235,7 @@ func init() {
 	eng.Register(&eng.Check{
 		Prop:  "C18",
 		Level: "model_checking", NodeStates: true,
-		Rule: "SCHED over 16 scenarios mixing transactions, point reads, filtered iteration, inserts, deletes, growth into a new block, snapshots, restore into another collection, index / " +
+		Rule: "SCHED over 17 scenarios mixing transactions, point reads, filtered iteration, inserts, deletes, growth into a new block, snapshots, restore into another collection, index / " +
 			"sorted index / trigger creation and removal, keyed operations. race/* units run in the -race build with the scheduler's hand-offs hidden from the detector " +
 			"(runtime.RaceDisable), so that every explored schedule is checked against the program's own happens-before order for ALL conflicting accesses it performs; a report is " +
 			"identified by the pair of innermost kelindar/column functions. deadlock/* units run the plain build at a higher bound; a schedule after which some thread can never run is a " +
@@ -233,9 +247,9 @@ func init() {
 		Budget: budget(170*time.Second, 28*time.Minute),
 		Bounds: func(tier string) map[string]any {
 			if tier == "quick" {
-				return map[string]any{"preemption_bound_race": 2, "preemption_bound_deadlock": 2, "scenarios": 16, "note": "the 16K-row scenario runs one bound lower"}
+				return map[string]any{"preemption_bound_race": 2, "preemption_bound_deadlock": 2, "scenarios": 17, "note": "the 16K-row scenario runs one bound lower"}
 			}
-			return map[string]any{"preemption_bound_race": 3, "preemption_bound_deadlock": 4, "scenarios": 16}
+			return map[string]any{"preemption_bound_race": 3, "preemption_bound_deadlock": 4, "scenarios": 17}
 		},
 		Units: c18Units,
 	})
